@@ -430,7 +430,14 @@ async def _sock(case: dict, out: Outcome):
                     try:
                         code, raw = await http(port, good, timeout=1.0)
                         answers.append(code)
-                    except (OSError, asyncio.TimeoutError):
+                    except asyncio.TimeoutError:
+                        break
+                    except OSError as e:
+                        # refused: fine once run() has returned - but the worker is still running its actor
+                        await asyncio.sleep(0.1)
+                        if not wt.done() and "slowjob" not in done_jobs:
+                            out.v("port-closed-while-running", f"during the graceful shutdown (an actor still running, run() not returned) the "
+                                  f"health port refused a connection: {e!r}; answers so far {answers}")
                         break
                     await asyncio.sleep(0.03)
                 want = 503 if failed else 200
